@@ -127,7 +127,7 @@ theorem recRun_pre (cfg : Cfg) : ∀ (n : Nat) (rd : Reader) (k : Kind) (v : Lis
     match preAll n rd k with
     | (its, .ready rd2) =>
         recRun cfg (its.length + F) rd v = (recRun cfg F rd2 v).prepend its ∧ rd2.norm = rd2
-    | (its, .err e rd2) => recRun cfg (its.length + F + 1) rd v = ⟨its, .err e, rd2.cidsEnd⟩
+    | (its, .err e rd2) => recRun cfg (its.length + F + 1) rd v = ⟨its, .err e, rd2.access⟩
     | (_, .stuck) => True := by
   intro n
   induction n with
